@@ -51,7 +51,17 @@ META = {
     "under its key); the NaN clean-up of the transformer wrapper (arrays: NaN in either coordinate => NaN in both, "
     "finite pairs untouched; scalars handed through); the key-coherence hypotheses of construct_sys_correct are "
     "PROVED for texts that are not EPSG spellings (the key function is the identity there) and remain assumed only "
-    "for letter-case variants of EPSG:<code> / the int code (and the pyproj-object keys of K5).  Tied to /repo on every run: random histories (incl. crs == spec, rejected spellings, cache "
+    "for letter-case variants of EPSG:<code> / the int code (and the pyproj-object keys of K5).  Final increment: ONE "
+    "state (Model/C19Unified.lean): the variable table of the history model is the heap of CRS instances, values "
+    "(BoundingBox, GeoBox, Geometry, GridSpec, GCPMapping, GeoboxTiles through its base) hold references into it; "
+    "every state a unified history reaches is, on its core, a state of the history model (urunFrom_core), so "
+    "CRS(spec)-after-any-history, the transformer and pinning theorems hold in the presence of holders, and "
+    "holders-see-reads / shared-holders-equal / held-instances-survive-del-and-gc are statements about that same "
+    "state; key coherence reduced to pyproj on canonical spellings only (CanonKeyCoherent: an EPSG: spelling reads "
+    "like its upper-cased form, 'EPSG:<n>' like the int n; keyCoherent_of_canon); CRS.units / dimensions as a "
+    "dispatch over pyproj's axis_info after the polar fix (a projected CRS with >= 2 axes always reports the units of "
+    "two different axes); cache accounting for hashable CRS-like objects (an entry per object, never colliding with "
+    "text keys).  Tied to /repo on every run: random histories (incl. crs == spec, rejected spellings, cache "
     "capacity) replayed in fresh interpreters and diffed against the model, all pairs of near-identical values "
     "per type (1-ulp neighbours, long lists) diffed against the model, constructors diffed exactly, attribute "
     "sets found by introspection, and model-independent oracles on the real objects (pairs/triples, clones, "
@@ -629,6 +639,108 @@ def part_a(R: Run):
         for kind, x in W.lossless[c]:
             systems.add(W.einfo[x]["sys"] if kind in ("int", "pyproj-epsg") else W.info[x]["sys"])
         R.oracle(len(systems) == 1, "pyproj-lossless-specs-differ", {"code": c}, f"systems {systems}", trivial=True)
+
+
+HOLDER_KINDS = ["bbox", "gbox", "geom", "gridspec", "gcpmap", "gbt"]
+
+
+def gen_unified(rng, W, nops: int, kind: str) -> list:
+    """a history over ONE state: constructions through the cache, copies, unpickled clones, drops, collections,
+    transformer requests AND values of one type holding the instances, .epsg read through instances, == of values.
+    Instance names are never reused (a value keeps the object, whatever the name is bound to later)."""
+    codes = rng.sample(W.codes, 2)
+    pool = [s for c in codes for s in W.lossless[c] if s[0] in ("int", "str")] + [("str", n) for n in sorted(W.lossy_names)]
+    for fam in rng.sample(W.codeless, min(2, len(W.codeless))):
+        pool += [s for s in fam if s[0] == "str"]
+    ops: list = []
+    live: list = []     # instance names that still have their name
+    alive: list = []    # all instances that exist (named or held)
+    holders: list = []
+    nxt = 0
+    while len(ops) < nops:
+        r = rng.random()
+        if r < 0.22 or len(live) < 2:
+            spec = rng.choice(pool)
+            if W.rejected(spec) or spec_fails(W, spec):
+                continue
+            ops += spec_ops(W, spec, nxt, 0)
+            live.append(nxt); alive.append(nxt); nxt += 1
+        elif r < 0.28:
+            ops.append(["mc", nxt, rng.choice(live)]); live.append(nxt); alive.append(nxt); nxt += 1
+        elif r < 0.33:
+            ops.append(["pk", nxt, rng.choice(live)]); live.append(nxt); alive.append(nxt); nxt += 1
+        elif r < 0.50 or len(holders) < 2:
+            h = rng.randint(0, 5)
+            if rng.random() < 0.1 and kind != "gridspec":
+                ops.append(["hn", h, kind])
+            else:
+                ops.append(["hh", h, rng.choice(live), kind])
+            if h not in holders:
+                holders.append(h)
+        elif r < 0.56:
+            h2 = rng.randint(0, 5)
+            ops.append(["rh", h2, rng.choice(holders)])
+            if h2 not in holders:
+                holders.append(h2)
+        elif r < 0.70:
+            ops.append(["ep", rng.choice(live)])
+        elif r < 0.84:
+            ops.append(["he", rng.choice(holders), rng.choice(holders)])
+        elif r < 0.88 and len(live) > 2:
+            v = rng.choice(live)
+            live.remove(v)
+            ops.append(["dl", v])
+        elif r < 0.93:
+            ops.append(["gc"])
+        elif r < 0.97:
+            ops.append(["tr", rng.choice(live), rng.choice(live), True])
+        else:
+            ops.append(["eq", rng.choice(live), rng.choice(live)])
+    return ops
+
+
+def lean_uops(ops: list, rng) -> str:
+    out = []
+    for op in ops:
+        k = op[0]
+        if k == "hh":
+            out.append(f"hh;{op[1]};{op[2]}")
+        elif k == "hn":
+            out.append(f"hn;{op[1]}")
+        elif k in ("rh", "he"):
+            out.append(f"{k};{op[1]};{op[2]}")
+        elif k == "dl":
+            out.append(f"dl;{op[1]}")
+        else:
+            out.append(lean_ops([op], rng)[1:-1])
+    return "[" + ",".join(out) + "]"
+
+
+def part_unified(R: Run):
+    """histories over the unified state (Model/C19Unified.lean) in pristine processes"""
+    from .c19_world import EPSG_CODES, World
+
+    rng = R.rng
+    W = World(EPSG_CODES)
+    ts, es = W.lean_tables()
+    payload = W.worker_payload()
+    kinds = list(HOLDER_KINDS)
+    rng.shuffle(kinds)
+    jobs = [(f"unified-{i}-{kinds[i % len(kinds)]}", gen_unified(rng, W, R.pick(30, 40), kinds[i % len(kinds)]))
+            for i in range(R.pick(6, 60))]
+    results = run_jobs(payload, jobs, min(6, os.cpu_count() or 4))
+    for (hid, ops), res in zip(jobs, results):
+        line = f"c19 uhist {ts} {es} {lean_uops(ops, rng)}"
+        if isinstance(res, str):
+            R.corr(line, lambda r=res: r, sig="uhist|worker-error")
+            continue
+        R.corr(line, lambda r=res: ",".join(r["obs"]), sig="uhist|" + hid.split("-")[-1])
+        R.count("uhist-ops", len(ops))
+        for rec in res["records"]:
+            if rec["k"] == "hold":
+                R.oracle(rec["ok"], "value-does-not-hold-the-crs-it-was-given", {"history": ops, "kind": rec["kind"]},
+                         f"a {rec['kind']} constructed with crs=<CRS instance> reports another CRS", trivial=True)
+        judge_records(R, W, ops, {"records": [r for r in res["records"] if r["k"] != "hold"]}, {}, hid)
 
 
 def soft_cache_sizes(R: Run, size_lines: list):
@@ -1757,6 +1869,7 @@ def run(R: Run):
     A.guard("constructors", lambda: part_ctor(R))
     A.guard("value families", lambda: part_b(R))
     A.guard("CRS histories", lambda: part_a(R))
+    A.guard("unified histories", lambda: part_unified(R))
     R.exhaustive = False
     R.notes += [n for n in A.NOTES if n not in R.notes]
 
